@@ -47,7 +47,12 @@ def correspond(ctx):
 def gen_seg(rng):
     fam = rng.choice(['random', 'random', 'line', 'cusp', 'loop', 'retrace', 'smooth', 'quad', 'int', 'smallint', 'closedseg', 'uniform-moved'])
     r = lambda: P(rng.uniform(-300, 300), rng.uniform(-300, 300))
-    if fam == 'line': return fam, Line(r(), r())
+    if fam == 'line':
+        if rng.random() < 0.4:
+            # short oblique line far from the origin: comparisons relative to the coordinates must not decide its direction
+            o = P(rng.choice([1e5, 1e6, 1e7, -3e7]), rng.choice([1e5, 1e7, -2e6])); e = 10.0 ** rng.randint(-4, 0)
+            return 'line-far-short', Line(o, P(o.x + 3 * e * rng.choice([1, -1]), o.y + 4 * e * rng.choice([1, -1])))
+        return fam, Line(r(), r())
     if fam == 'quad': return fam, QuadraticBezier(r(), r(), r())
     if fam == 'int': return fam, gen.segment(rng, order=rng.choice([3, 4]), fam='int')[0]
     if fam == 'smallint': return fam, gen.segment(rng, order=rng.choice([3, 4]), fam='smallint')[0]
@@ -145,6 +150,16 @@ def search(ctx):
         p = BezierPath.fromSegments(segs)
         if abs(p.length - sum(s.length for s in segs)) > 1e-9 * max(1, p.length):
             fails.append({'class': 'C04-path', 'what': 'path length is not the sum of its segments', 'input': {'path': [gen.seg_json(s) for s in segs]}, 'observed': p.length, 'expected': sum(s.length for s in segs)})
+    # path-level stale state: asking must not change later answers, and an in-place edit of a segment through the path's own
+    # segment list (or of its Point objects) must be seen by the next query
+    import gen as _gq
+    from beziers.point import Point as _PQ
+    for _ in range(ctx.n(25, 500)):
+        _segs = _gq.closed_contour(rng, ints=rng.random() < 0.3)
+        _qp = _PQ(_segs[0][0].x + rng.uniform(-150, 150), _segs[0][0].y + rng.uniform(-150, 150))
+        _ff = _gq.path_freshness(rng, _segs, {'length': lambda p: p.length}, closed=True, disturb=[lambda p: p.pointIsInside(_qp), lambda p: p.bounds(), lambda p: p.length, lambda p: p.area])
+        n += 1; dist['stale-state/path'] = dist.get('stale-state/path', 0) + 1
+        if _ff: fails.append({'class': 'C04-stale-state', 'what': _ff[0], 'input': None, 'observed': _ff[:3], 'expected': 'the answers of a freshly built path with the same control points'})
     return {'evaluations': n, 'distinct_nontrivial': len(seen), 'failures': fails, 'distribution': dist, 'samples': samples, 'measured': {'worst_relative_error_by_family': worst}}
 
 
